@@ -61,24 +61,26 @@ Qed.
 
 (** * UTF-8 encoding: all 0x110000 code points *)
 Definition utf8_agree (cp : Z) : bool :=
-  (1114111 <? cp) ||
   match utf8_encode_c cp with
   | Some b => bytes_eqb b (utf8_of_codepoint cp)
   | None => false
   end.
 
-Lemma utf8_sweep : range_all utf8_agree 0 21 = true.
-Proof. vm_compute. reflexivity. Qed.
+(* 0x110000 = 2^20 + 2^16 *)
+Lemma utf8_sweep_lo : range_all utf8_agree 0 20 = true.
+Proof. vm_cast_no_check (@eq_refl bool true). Qed.
+Lemma utf8_sweep_hi : range_all utf8_agree 1048576 16 = true.
+Proof. vm_cast_no_check (@eq_refl bool true). Qed.
 
 Theorem utf8_encode_c_spec : forall cp, 0 <= cp <= 1114111 ->
   utf8_encode_c cp = Some (utf8_of_codepoint cp).
 Proof.
   intros cp Hcp.
   assert (H : utf8_agree cp = true).
-  { apply (range_all_spec utf8_agree 21 0 utf8_sweep). change (2 ^ Z.of_nat 21) with 2097152. lia. }
+  { destruct (Z.ltb_spec cp 1048576) as [Hlt|Hge].
+    - apply (range_all_spec utf8_agree 20 0 utf8_sweep_lo). change (2 ^ Z.of_nat 20) with 1048576. lia.
+    - apply (range_all_spec utf8_agree 16 1048576 utf8_sweep_hi). change (2 ^ Z.of_nat 16) with 65536. lia. }
   unfold utf8_agree in H.
-  destruct (Z.ltb_spec 1114111 cp) as [Hgt|_]; [lia|].
-  cbn [orb] in H.
   destruct (utf8_encode_c cp) as [b|]; [|discriminate].
   apply bytes_eqb_eq in H. congruence.
 Qed.
@@ -101,7 +103,7 @@ Definition pair_agree (hi : Z) : bool :=
   range_all (fun lo => pair_formula_c hi lo =? pair_codepoint hi lo) 56320 10.
 
 Lemma pair_sweep : range_all pair_agree 55296 10 = true.
-Proof. vm_compute. reflexivity. Qed.
+Proof. vm_cast_no_check (@eq_refl bool true). Qed.
 
 Theorem pair_formula_spec : forall hi lo,
   55296 <= hi <= 56319 -> 56320 <= lo <= 57343 ->
